@@ -406,6 +406,11 @@ class RegexParser:
                 return self._parse_hex_escape().char
             if escaped == "u":
                 return self._parse_unicode_escape().char
+            if escaped == "c":
+                ctrl = self._peek()
+                if ctrl is not None and ("a" <= ctrl <= "z" or "A" <= ctrl <= "Z"):
+                    self._advance()
+                    return chr(ord(ctrl.upper()) - 64)
             if escaped in "dDwWsS":
                 # These need special handling - return as-is for now
                 # The compiler will expand them
